@@ -3,7 +3,7 @@ import json
 import os
 import re
 
-from . import common, ip_checks, jun_checks, iptext_checks, secret_checks
+from . import common, ip_checks, jun_checks, iptext_checks, secret_checks, text_checks
 from .common import LEAN, VERIF, Infra
 
 TRUSTED_BASE = [
@@ -214,6 +214,20 @@ SECRET_RULE = ("histories of secret-bearing lines drawn from the committed table
 SECRET_ASSUME = ["passlib's md5_crypt / sha512_crypt are parameters of the model (their real values are substituted by the harness)",
                  "the 57 secret patterns and 6 format patterns are the pinned CPython parse trees run by the Lean engine (validated by correspondence)"]
 
+TEXT_RULE = ("FileAnonymizer.anonymize_io twinned with the Lean pipeline model on seeded mixed texts (secret line forms, addresses of both families, "
+             "sensitive-word tokens in varied case and embedded positions, AS numbers standalone / adjacent to punctuation / embedded in longer digit "
+             "strings, blank and odd lines) under random feature subsets, salts and options; plus the property's own oracle on the implementation's "
+             "output; distinct_nontrivial counts distinct (scope, first characters of the line / feature subset) keys")
+TEXT_ASSUME = ["regular expressions: pinned CPython parse trees run by the Lean engine; str.lower and IGNORECASE character classes are data generated from the running interpreter",
+               "passlib's two crypt hashes are parameters of the model"]
+
+
+def text_prop(mod, scopes):
+    return {"modules": ["Netconan.Props." + mod], "scopes": scopes,
+            "checker_cmd": "cd lean && lake build Netconan.Props.%s && lake env lean <#print axioms audit>" % mod,
+            "rule": TEXT_RULE, "assumptions": TEXT_ASSUME}
+
+
 PROPS = {
     "C01": ip_prop("C01", [ip_checks.core_scope, ip_checks.file_scope, ip_checks.big_history]),
     "C02": ip_prop("C02", [ip_checks.core_scope, ip_checks.file_scope, ip_checks.cli_scope, ip_checks.big_history, ip_checks.process_history_scope]),
@@ -238,5 +252,11 @@ PROPS = {
     "C09": {"modules": ["Netconan.Props.C09"], "scopes": [secret_checks.corr_scope, secret_checks.c09_scope],
             "checker_cmd": "cd lean && lake build Netconan.Props.C09 && lake env lean <#print axioms audit>", "rule": SECRET_RULE,
             "assumptions": SECRET_ASSUME},
+    "C10": text_prop("C10", [text_checks.words_scope, text_checks.hashseed_scope]),
+    "C11": text_prop("C11", [text_checks.as_scope]),
+    "C12": text_prop("C12", [text_checks.pipeline_corr, text_checks.structure_scope]),
+    "C13": text_prop("C13", [text_checks.pipeline_corr, text_checks.determinism_scope, text_checks.hashseed_scope]),
+    "C14": text_prop("C14", [text_checks.pipeline_corr, text_checks.total_scope]),
+    "C15": text_prop("C15", [text_checks.pipeline_corr, text_checks.compose_scope]),
     "C17": ip_prop("C17", [ip_checks.core_scope, ip_checks.cli_scope, ip_checks.big_history]),
 }
